@@ -16,4 +16,6 @@ bool write_tet(const OpenVolumeMesh::GeometricTetrahedralMeshV3d &m, std::string
   out = ss.str();
   return ss.good();
 }
+bool write_tet_file(const OpenVolumeMesh::GeometricTetrahedralMeshV3d &m, const std::string &path) { OpenVolumeMesh::IO::FileManager fm; fm.setVerbosityLevel(0); return fm.writeFile(path, m); }
+bool read_tet_file(const std::string &path, bool topo_check, bool bottom_up, OpenVolumeMesh::GeometricTetrahedralMeshV3d &m) { OpenVolumeMesh::IO::FileManager fm; fm.setVerbosityLevel(0); return fm.readFile(path, m, topo_check, bottom_up); }
 }  // namespace ascii_shim
